@@ -1,6 +1,6 @@
 """C14 spec."""
 SPEC = dict(id="C14", kind="pure", binary="c14", gen="c14", corr="C14", n_quick=400, n_thorough=8000,
-    level_text="SetDefault and ValidateExperiment (all 58 field.Error sites, nil dereferences as Crash) and the generator's applyParameters are modelled; "
+    level_text="SetDefault and ValidateExperiment (all 60 field.Error sites, nil dereferences as Crash) and the generator's applyParameters are modelled; "
                "no-crash, budget, dereference, derived-name and trial-buildability theorems are proved for all experiments and configurations; "
                "the model is compared with the real defaulter/validator/generator over a fake client on generated experiments and structural mutations each run, "
                "and the boolean form of the property is evaluated on the implementation's outputs (k8s name validation, real trial instantiation)",
@@ -9,7 +9,9 @@ SPEC = dict(id="C14", kind="pure", binary="c14", gen="c14", corr="C14", n_quick=
         "library calls are evaluated by the harness and enter the model as data: regexps on trial-parameter references and metric filters, filepath.IsAbs, strconv.Atoi of the port, "
         "JSON rendering of an inline trialSpec, and the tail of the validator's dry run on the substituted template (placeholder regexp, YAML/JSON decoding, batch Job conversion + JSON patch)",
         "the substituted template text itself is modelled (strings.Contains / strings.Replace) and cross-checked against the harness' independent computation (rule 900)",
-        "C14_template_runs is partial: it proves that applyParameters succeeds (all lookups and the count check); that the substituted text decodes into an object is observed on 3 real instantiations per admitted experiment, not proved",
+        "C14_template_runs is partial: it proves that applyParameters succeeds (all lookups and the count check) for admitted hyperparameter experiments whose trial-metadata references resolve "
+        "(open finding unresolvable-trial-metadata) and whose ConfigMap template is YAML before substitution; distinct parameter names and 'every parameter is referenced' follow from admission "
+        "(repaired rules 59/60); that the substituted text decodes into an object is observed on 3 real instantiations per admitted experiment, not proved",
         "NAS experiments (no spec.parameters) are outside C14_template_runs: their assignments come from the algorithm service",
         "C14_names assumes the configured algorithm name is a DNS-1123 label of at most 22 bytes and utilrand.String(8) suffixes (lower-case alphanumerics)",
         "spec.objective.metricStrategies / primaryPodLabels defaulting, algorithm settings and NAS operations are not modelled (no validation rule or dereference depends on them)",
